@@ -203,8 +203,9 @@ def gen_ops(st: Stream, m: M.Model, profile: str, nops: int) -> Tuple[List[List[
             continue
         if profile == "alias" and any(f in flags for f in ("hi-mapped", "hi-plain")):
             continue  # the alias profile uses only the aliases the statement names (2^24 wrap, mirror window)
-        if "dev" in [m.info(c)[1] for c in m.cells(addr, n)] and not st.chance(1, 3):
-            continue
+        devs = [m.info(c)[1] == "dev" for c in m.cells(addr, n)]
+        if all(devs) and not st.chance(1, 3):
+            continue  # pure device accesses: kept only as "must not disturb plain memory" stimuli
         if store:
             value = st.u32() & ((1 << bits) - 1)
             if cpu and bits == 24:
